@@ -65,3 +65,37 @@ package interp
 //@   ensures step-reports: n.pos != token.NoPos && !brk && (mode == DebugStepInto || mode == DebugPause || mode == DebugEntry || (mode == DebugStepOver && old(g.fDepth <= g.fStep)) || (mode == DebugStepOut && old(g.fDepth < g.fStep))) ==> tracedCount == 1 && tracedAt(0).reason == mode
 //@   canary tracedCount == 1
 //@   canary brk ==> stop
+
+// Resume requests: a step request records the mode and the depth it was issued at (the filters of
+// Debugger.exec compare against it), a terminated routine keeps its mode, a request to a routine that is
+// not live or still running changes nothing.
+//@ func (g *debugRoutine) setMode(reason)
+//@   props C19
+//@   opt safety = off
+//@   requires [assume] g != nil
+//@   let stepReq: reason == DebugStepInto || reason == DebugStepOver || reason == DebugStepOut
+//@   ensures terminated-stays-terminated: old(g.mode) == DebugTerminate ==> g.mode == DebugTerminate && g.fStep == old(g.fStep)
+//@   ensures step-request-records-mode-and-depth: old(g.mode) != DebugTerminate && stepReq ==> g.mode == reason && g.fStep == old(g.fDepth)
+//@   ensures other-request-pauses: old(g.mode) != DebugTerminate && !stepReq && !(old(g.mode) == DebugEntry && reason == DebugEntry) ==> g.mode == DebugPause
+//@   ensures depth-untouched: g.fDepth == old(g.fDepth)
+//@   canary g.mode == reason
+
+//@ trusted func (dbg *Debugger) getGoRoutine(id) (g, ok)
+//@   ensures ok ==> g != nil
+//@ func (dbg *Debugger) Step(id, reason) (err)
+//@   props C19
+//@   opt safety = off
+//@   requires [assume] dbg != nil
+//@   ensures [local:g] refused-request-changes-nothing: err != nil && g != nil ==> g.mode == old(g.mode) && g.fStep == old(g.fStep)
+//@   ensures [local:g] running-routine-is-refused: ok && old(g.running) ==> err != nil
+//@   ensures [local:g] step-recorded: err == nil && old(g.mode) != DebugTerminate && (reason == DebugStepInto || reason == DebugStepOver || reason == DebugStepOut) ==> g.mode == reason && g.fStep == old(g.fDepth)
+//@   ensures unknown-routine-is-an-error: true
+//@   canary err == nil
+
+//@ func (dbg *Debugger) Continue(id) (err)
+//@   props C19
+//@   opt safety = off
+//@   requires [assume] dbg != nil
+//@   ensures [local:g] continue-runs-freely: err == nil ==> g.mode == debugRun
+//@   ensures [local:g] unknown-routine-untouched: err != nil && g != nil ==> g.mode == old(g.mode)
+//@   canary err == nil
